@@ -11,6 +11,14 @@ REPO = os.environ.get("PYVC_REPO", "/repo")
 NATIVE_PY = "/venv/bin/python"
 
 PLANS = {
+    "C02": {
+        "level": "proof",
+        "sidecars": ["charges"],
+        "extras": [{"name": "c02_charge_table", "module": "tables.x_checks", "func": "c02_charges", "python": "vt"},
+                   {"name": "c02_termini", "module": "bounded.c02_termini", "func": "run", "python": "venv"}],
+        "explanation": "state naming, residue charge, integrality guard and per-chain termini proved; force-field data "
+                       "checked exhaustively (X); chain splitting in set_termini bounded (B)",
+    },
     "C06": {
         "level": "proof",
         "sidecars": ["titration"],
